@@ -6,6 +6,7 @@ from harness.gen import scenarios_a
 
 ID = "C06"
 PROP_FILE = "C06.v"
+SOFT_PINS = "core"
 TRANSLATORS = ["unicode_tables", "tables"]
 RULE = ("40% grammar-generated histories with periodic save ticks and stop/restart cycles sprinkled in, 60% directed ones "
         "(present-save-request-restart-request - in 40% of these the id request is handled WHILE the periodic save is in "
